@@ -65,7 +65,7 @@ func ruleLatencyReport(r *Run) {
 	}
 	r.Analysed(sendPing, 1)
 	for _, c := range r.callersOf(sendPing.Obj) {
-		r.Check("I4", "ping-issuer["+c.Name+"]", c == start || c == on, c.Body.Pos(), "ping rounds are issued only by Start and OnPing")
+		r.Check("I4", "ping-issuer["+c.Name+"]", c == start || c == on || r.onlyFrom(c, start.Name, on.Name), c.Body.Pos(), "ping rounds are issued only by Start and OnPing")
 	}
 	// OnPing
 	paths := r.Paths(on)
@@ -210,7 +210,7 @@ func ruleLatencyReport(r *Run) {
 	r.Check("I4", on.Name+":cases", nFinal >= 1 && nNext >= 1 && nRefused >= 1, on.Body.Pos(), "OnPing has refusing, continuing and reporting paths (%d, %d, %d)", nRefused, nNext, nFinal)
 	// round counter written only in Start (set) and OnPing (decrement)
 	for _, f2 := range r.P.All {
-		if f2 != start && f2 != on && r.writesField(f2, pkgModels, "SignedLatency", "Iteration") {
+		if f2 != start && f2 != on && r.writesField(f2, pkgModels, "SignedLatency", "Iteration") && !r.onlyFrom(f2, start.Name, on.Name) {
 			r.Check("I4", f2.Name+":writes[Iteration]", false, f2.Body.Pos(), "the round counter is written outside Start/OnPing")
 		}
 	}
